@@ -12,7 +12,8 @@ for e in entries:
     m = re.match(r'([A-Z][A-Za-z0-9_]*)\.([A-Za-z0-9_\']+)\n\s+: (.*)', e.strip('\n'), flags=re.S)
     if m and m.group(1) == mod:
         items.append((m.group(2), m.group(3).strip()))
-path = os.path.join(COQ, 'Properties', pid + '_stage2.v')
+SUF = os.environ.get('MK_SUFFIX', '_stage2')      # '_engine': statements about the stage-1 engine model
+path = os.path.join(COQ, 'Properties', pid + SUF + '.v')
 if os.path.exists(path):
     hdr = open(path).read().rstrip('\n') + '\n\n(* ---- %s ---- *)\nFrom CiwV.Inv Require %s.\n' % (mod, mod)
 else:
@@ -20,6 +21,11 @@ else:
            '   The model is tied to /repo by the stepwise correspondence check K2 (harness/engine_k2b.py). *)\n'
            'From Coq Require Import ZArith List Bool Permutation.\nFrom CiwV Require Import Sx Prelude Routing Sched.\n'
            'From CiwV.Engine Require Import State2 Engine2 Codec2.\nFrom CiwV.Inv Require %s.\nImport ListNotations.\nOpen Scope Z_scope.\n' % (pid, mod, mod))
+    if SUF == '_engine':
+        hdr = ('(* Property %s -- statements about the (stage-1) ENGINE MODEL (coq/Engine/Engine.v), statements only; proofs in coq/Inv/%s.v.\n'
+               '   The model is tied to /repo by the stepwise correspondence check K2 (harness/engine_k2.py). *)\n'
+               'From Coq Require Import ZArith List Bool Permutation.\nFrom CiwV Require Import Sx Prelude.\n'
+               'From CiwV.Engine Require Import State Engine Codec.\nFrom CiwV.Inv Require %s.\nImport ListNotations.\nOpen Scope Z_scope.\n' % (pid, mod, mod))
 body = []
 for name, ty in items:
     ch = 'Theorem %s :\n  %s.\nProof. exact %s.%s. Qed.\nPrint Assumptions %s.' % (name, ty, mod, name, name)
